@@ -77,3 +77,63 @@ def run(rep, logics, d, tag, workers=2, full=False):
         elif r.error:
             raise C.MachineryError(f'TableauMC failed for {L}:\n{r.out[-2500:]}')
     return bad
+
+
+# --------------------------------------------------------------------------
+# modal calculus (TableauModalMC.tla)
+# --------------------------------------------------------------------------
+MODAL_CFG = ("SPECIFICATION Spec\nINVARIANT Saturated\nINVARIANT ModelSatisfiesBranch\nPROPERTY Termination\nCHECK_DEADLOCK FALSE\n")
+
+
+def modal_args():
+    L = lambda s: O('Necessity', s)
+    M = lambda s: O('Possibility', s)
+    return {
+        'nec-elim': {'prems': [L(a)], 'conc': a},
+        'poss-intro': {'prems': [a], 'conc': M(a)},
+        'k-dist': {'prems': [L(O('MaterialConditional', a, b)), L(a)], 'conc': L(b)},
+        'poss-conj': {'prems': [M(a), M(b)], 'conc': M(O('Conjunction', a, b))},
+        's4': {'prems': [L(a)], 'conc': L(L(a))},
+        'serial': {'prems': [L(a)], 'conc': M(a)},
+        'np': {'prems': [Neg(M(Neg(a)))], 'conc': L(a)},
+        'nec-poss': {'prems': [L(a), M(b)], 'conc': M(O('Conjunction', a, b))},
+        'two-nec': {'prems': [L(a), L(b), M(c)], 'conc': M(O('Conjunction', a, O('Conjunction', b, c)))},
+    }
+
+
+def run_modal(rep, logics, d, tag, maxw=3, workers=2, full=False):
+    g = C.tlc('C04_Exact', GEN_CFG, env={'CASES': '/dev/null'}, out_name='cases.ndjson', tag=f'{tag}mmgen', timeout=600)
+    shapes = d / f'{tag}-mshapes.ndjson'
+    with open(shapes, 'w') as f:
+        for line in open(g.out_path):
+            x = json.loads(line)
+            if x['kind'] in ('op', 'modal') and x['logic'] in logics:
+                f.write(line)
+    ns = 8
+    C.run_drivers_parallel([('d_rules.py', [shapes, d / f'{tag}-mrules{k}.ndjson', k, ns], {'hooks': False}) for k in range(ns)])
+    rules = d / f'{tag}-mrules.ndjson'
+    with open(rules, 'w') as f:
+        for k in range(ns):
+            f.write(open(d / f'{tag}-mrules{k}.ndjson').read())
+    args = modal_args()
+    if not full:
+        args = {k: v for k, v in args.items() if k not in ('two-nec',)}
+    calls = []
+    for L in logics:
+        pf = d / f'{tag}-mpar-{L}.json'
+        pf.write_text(json.dumps({'logic': L, 'args': list(args.values()), 'maxw': maxw}))
+        calls.append(dict(module='TableauModalMC', cfg=MODAL_CFG, env={'RULES': rules, 'PAR': pf}, workers=workers,
+                          tag=f'{tag}mm{L}', timeout=2400, xmx='3g', check=False))
+    bad = 0
+    for L, r in zip(logics, C.tlc_parallel(calls, nproc=max(1, C.NCPU // workers))):
+        rep.add_tlc(r)
+        rep.cov.setdefault('modal_mc_per_logic', {})[L] = {'states': r.distinct, 'wall_s': round(r.wall, 1)}
+        if r.violated or 'Temporal properties were violated' in r.out:
+            which = [x for x in ('Saturated', 'ModelSatisfiesBranch', 'Termination') if f'Invariant {x} is violated' in r.out]
+            rep.violation({'kind': 'all_schedules_model', 'clause': (which or ['Termination'])[0], 'logic': L,
+                           'logic_family': L, 'root': 'model-layer'},
+                          {'tlc_tail': r.out[-3000:]})
+            bad += 1
+        elif r.error:
+            raise C.MachineryError(f'TableauModalMC failed for {L}:\n{r.out[-2500:]}')
+    return bad
